@@ -44,12 +44,13 @@ def replay(args):
         seq += 1
         ev.update({"tid": tid, "seq": seq})
         for k, d in (("pos", 0), ("cache", ""), ("mod", ""), ("ndone", 0), ("pending", []), ("tops", []), ("children", {}), ("np", 0),
-                     ("kindof", []), ("raised", False), ("strict", True)):
+                     ("kindof", []), ("raised", False), ("strict", True), ("caches", []), ("elab", False)):
             ev.setdefault(k, d)
         events.append(ev)
     children = ET.SHAPES[shape]
     for tops, kind in zip(calls, kinds):
-        emit({"ev": "call_begin", "tops": tops, "children": children, "np": len(passes), "kindof": [p["kind"] for p in passes]})
+        emit({"ev": "call_begin", "tops": tops, "children": children, "np": len(passes), "kindof": [p["kind"] for p in passes],
+              "caches": [p["cache"] for p in passes]})
         sink.events.clear()
         raised, dg, exc = ET.do_call(h, kind, [mods[t] for t in tops])
         for e in sink.events:
